@@ -1,5 +1,7 @@
 import TaskctlVerif.Model.Graph
 import TaskctlVerif.Model.Sched
+import TaskctlVerif.Model.Runner
+import TaskctlVerif.Model.Cli
 /-!
 Line-protocol oracle: one case per line on stdin (`<family> <payload>`), one observation per line on
 stdout.  Compiled from exactly the definitions the theorems are about (core Lean only).
@@ -65,11 +67,62 @@ def schedCase (fields : List String) : String :=
   let runs := ",".intercalate ((List.range n).map fun s => toString (σ.starts s))
   "|".intercalate qs ++ s!"|final={final}|err={if σ.gerr then 1 else 0}|runs={runs}"
 
+/-! ### runner cases -/
+
+def parseRes (s : String) : Runner.CmdResult :=
+  if s = "f" then .fault
+  else if s = "x" then .norender
+  else if s.startsWith "e" then .exit (BitVec.ofNat 8 ((s.drop 1).toString.toNat?.getD 0))
+  else .fault
+
+def parseResList (s : String) : List Runner.CmdResult :=
+  if s = "-" then [] else (splitNonEmpty s ",").map parseRes
+
+def tokStr : Runner.Tok → String
+  | .cond => "c"
+  | .before i => s!"b{i}"
+  | .cmd v j => s!"m{v}.{j}"
+  | .after i => s!"a{i}"
+
+def b2s (b : Bool) : String := if b then "1" else "0"
+
+/-- `runner cond=- before=e0,e3 n=2 vars=- res=e0,e5 after=- allow=0 init=-1` -/
+def runnerCase (fields : List String) : String :=
+  let n := (kv fields "n").toNat?.getD 0
+  let vars := (kv fields "vars").toNat?
+  let resL := parseResList (kv fields "res")
+  let cond := if kv fields "cond" = "-" then none else some (parseRes (kv fields "cond"))
+  let t : Runner.TaskSpec := {
+    cond := cond, before := parseResList (kv fields "before"), nCmds := n, vars := vars,
+    res := fun v j => resL.getD (v * n + j) (.exit 0), after := parseResList (kv fields "after"),
+    allow := kv fields "allow" = "1",
+    initExit := if kv fields "init" = "-1" then (-1 : BitVec 16) else 0 }
+  let o := Runner.runTask t
+  s!"trace={",".intercalate (o.trace.map tokStr)}|err={b2s o.err}|errored={b2s o.errored}|skipped={b2s o.skipped}|exit={o.exitCode.toInt}"
+
+/-! ### command-line cases -/
+
+/-- `cli ok=t1:1,t2:0 args=t1 t2 -- x` -/
+def cliCase (line : String) : String :=
+  match line.splitOn " args=" with
+  | [hd, args] =>
+    let okL := (splitNonEmpty ((hd.splitOn "ok=").getD 1 "") ",").map fun e =>
+      match e.splitOn ":" with
+      | [n, b] => (n, b == "1")
+      | _ => (e, false)
+    let ok (t : String) : Bool := (okL.lookup t).getD false
+    let r := Cli.cli ok (splitNonEmpty args " ")
+    let ran := r.1.filter (fun t => (okL.lookup t).isSome)
+    s!"ran={",".intercalate ran}|exit={r.2}"
+  | _ => "bad-op"
+
 def handle (line : String) : String :=
   let line := line.trimAscii.toString
   match line.splitOn " " with
   | "graph" :: rest => graphCase (" ".intercalate rest)
   | "sched" :: rest => schedCase rest
+  | "runner" :: rest => runnerCase rest
+  | "cli" :: _ => cliCase line
   | _ => "bad-op"
 
 partial def loop (h : IO.FS.Stream) (out : IO.FS.Stream) : IO Unit := do
